@@ -46,6 +46,7 @@ class TypeSem:
         self.vars = {}
         self.memo = {}
         self.visiting = set()
+        self.var_any = False     # read a type variable as "any value" (tags of generic tuples)
 
     # -- signatures ------------------------------------------------------------------------
     def sig_of(self, name, labels):
@@ -73,7 +74,7 @@ class TypeSem:
         return self._memo_mem(tid, path, stack)
 
     def _memo_mem(self, tid, path, stack):
-        key = (tid, path, stack, self.approx)
+        key = (tid, path, stack, self.approx, self.var_any)
         if key in self.memo:
             return self.memo[key]
         if key in self.visiting:
@@ -114,6 +115,8 @@ class TypeSem:
                 return self._memo_mem(target, path, stack[:len(stack) - d])
             if "partial" in t:
                 return self._mem_partial(t["partial"], path, stack)
+            if "var" in t and self.var_any:
+                return self.wf(path)
             for k in ("fn", "process", "resource", "var"):
                 if k in t:
                     raise Unsupported(k)
